@@ -8,6 +8,7 @@
 -/
 import SF.Proofs.CborTop
 import SF.Proofs.CborTree
+import SF.Proofs.CborTermTop
 namespace SF.Props.C05
 open SF SF.Cbor SF.Cbor.Cst SF.Cbor.Parse
 
@@ -122,5 +123,18 @@ example : (Item.arr .w1 [.nint .w1 199, .mapIndef [(.imm, [0x61], .arrIndef [.ui
 example :
     Parse.events (Parse.parse {} (Item.wire (.map .imm [(.imm, [], .nint .w2 40000)]))).1 =
       [.objStart 1 BT.any, .key [], .num .i32 (-40001), .objEnd] := by decide +kernel
+
+/-- the converse, "never reported as some other value": whatever byte string the parser
+accepts IS a concatenation of items of the supported subset (for inputs shorter than 2^63
+bytes, literally `Item.ok` items) — so, with `parse_supported`, the events delivered are
+exactly the RFC values of those items; nothing outside the subset is ever accepted -/
+theorem accepted_is_supported (b : Bytes) (hb : b.length < 9223372036854775808)
+    (h : (Parse.parse {} b).2 = none) : ∃ its, okList its = true ∧ b = wireList its :=
+  SF.Cbor.Term.parse_none_is_ok_items b hb h
+
+/-- the wire form of the subset is prefix-free: an accepted input has ONE reading -/
+theorem wire_prefix_free (t1 t2 : Item) (h1 : SF.Cbor.Sim.okw t1 = true) (h2 : SF.Cbor.Sim.okw t2 = true) (r1 r2 : Bytes)
+    (h : t1.wire ++ r1 = t2.wire ++ r2) : r1 = r2 :=
+  SF.Cbor.Term.wire_prefix_free t1 t2 h1 h2 r1 r2 h
 
 end SF.Props.C05
